@@ -8,6 +8,9 @@ Systematic enumeration of the grid
   x action-set kind (13) x #actions in {1,2,3,4} x batch size in {1,2,3,4}   (incl. the square cases)
 Every grid cell is filled several times (seeded): context kind, PMF style, containers, kwargs payload kind,
 scripted indices / probabilities, follow-up calls (same layout, shorter last batch, other #actions).
+One context kind is *absent*: the interactions have no 'context' key, so the evaluator (SequentialCB: `context = ... if
+has_context else None`) calls predict/learn with context None -- also in a batched call, where the actions are a batch
+and the context is not (SafeLearner decides "batched" from `is_batch(actions) or is_batch(context)`).
 The action kinds include string sets in which a longer string is spelled with the offered one-character strings
 (its items are themselves -- by CPython's one-object-per-character -- offered actions).  For PMF learners a share
 of the fillings uses a *boundary seed*: the seed is chosen (by running the generator's recurrence backwards, and
@@ -34,7 +37,7 @@ from collections import Counter
 ID    = "C15"
 LEVEL = "exploration"
 RULE  = ("full enumeration of format(6) x kwargs(none | {empty,payload} x Mapping kind(dict,OrderedDict,MappingProxyType,UserDict)) x batching(not,row,col,fallback) x action kind(13) x #actions(1-4) "
-         "x batch size(1-4); every cell is filled with seeded context kinds, PMF styles, containers, payload kinds and "
+         "x batch size(1-4); every cell is filled with seeded context kinds (incl. no 'context' key: context None next to a batch of action sets), PMF styles, containers, payload kinds and "
          "follow-up calls; a case is distinct when (format, kwargs, kwargs Mapping kind, batching, kind, #actions, batch size, context kind, "
          "pmf style, payload kind, container, fallback style, key length, boundary draw) differ; trivial = unbatched with 1 action or "
          "a cell outside the quantifier (bare dict action, value readable two ways)")
@@ -46,7 +49,8 @@ REQUIRED = ["oracle.action", "oracle.prob.stated", "oracle.prob.none-stated", "o
             "learner.batch-only", "oracle.kwargs.out.non-dict-mapping", "oracle.kwargs.learn.non-dict-mapping", "batching.not", "batching.row", "batching.col", "batching.fallback",
             "oracle.pmf.frequency", "e2e.rows", "contract.predict.action_offered",
             "edge.draw.verified", "edge.draw.zero", "edge.draw.max", "edge.draw.tie", "oracle.pmf.zero-never.u=0-on-leading-zero-weight",
-            "oracle.pmf.zero-never.u=max-on-trailing-zero-weight", "oracle.action.str-spelled-with-offered-chars"]
+            "oracle.pmf.zero-never.u=max-on-trailing-zero-weight", "oracle.action.str-spelled-with-offered-chars",
+            "oracle.no-context.batched", "oracle.no-context.square", "oracle.no-context.fallback", "e2e.rows.no-context-key.batched"]
 ASSUMPTIONS = [
     "learners answer consistently in one documented layout and return the offered objects themselves",
     "a bare dict is always read as a format hint, so sparse-dict actions are only asserted with the (action,prob), PMF and hinted formats",
@@ -68,6 +72,9 @@ ASSUMPTIONS = [
     "confirmed by drawing from the real CobaRandom, an unconfirmed one is not counted (the run is then INCONCLUSIVE, not a violation); "
     "at an exact tie between two positive-weight actions either of the two is accepted",
     "a str answer is a bare action (a character is not a probability), also when its first character is itself an offered action",
+    "an environment without contexts is one whose interactions carry no 'context' key: the evaluator then passes context None, in a "
+    "batched call next to a batch of action sets (what SequentialCB does); a learner asked about a batch then sees None for every row, "
+    "and row-by-row operation of the same environment calls predict(None, actions) / learn(None, ...)",
 ]
 
 FORMATS  = ["action", "action_prob", "pmf", "h_action", "h_action_prob", "h_pmf"]
@@ -76,7 +83,7 @@ KWCONTS  = ["dict", "odict", "proxy", "userdict"]     # how the learner hands it
 BATCHING = ["not", "row", "col", "fallback"]
 KINDS    = ["int01", "int", "floatp", "float01", "str1", "strn", "strsub", "categorical", "onehot", "tuple2", "list", "dict", "mixed"]
 SIZES    = [1, 2, 3, 4]
-CTXKINDS = ["none", "int", "str", "tuple", "dict", "float"]
+CTXKINDS = ["none", "int", "str", "tuple", "dict", "float", "absent"]
 PMFSTYLE = ["float", "zeros", "onehot", "onehot-int", "uniform", "rounded"]
 PAYKINDS = ["scalar", "str", "list", "dict", "nonevalue", "multi"]
 CONTS    = ["list", "tuple"]
@@ -151,6 +158,7 @@ def make_actions(kind, n, v, klen=2):
 
 def make_context(kind, rid):
     if kind == "none":  return None
+    if kind == "absent": return None       # no 'context' key: None for every row, handed over un-batched (see _ctx_arg)
     if kind == "int":   return rid
     if kind == "str":   return f"c{rid}"
     if kind == "tuple": return (rid, 0.5)
@@ -377,6 +385,7 @@ class Scripted:
             raise CannotBatch("this learner does not understand batches")
         if self.layout == "not": raise HarnessError("unbatched case received a batch")
         fmt, C = self.spec["fmt"], self.cont
+        if not is_batch(context): context = [context] * len(actions)       # no context: the same None for every row
         if self.layout == "row":
             out = C([self._one(c, A) for c, A in zip(context, actions)])
         else:
@@ -404,6 +413,11 @@ class Scripted:
         self.learned.append((batched, context, action, reward, probability, kwargs))
 
 # ------------------------------------------------------------------------------------------ driving the real SafeLearner
+def _ctx_arg(spec, ctxs):
+    """the context argument of a batched call: a batch of contexts, or -- interactions without a 'context' key -- None"""
+    from coba.environments.filters import Batch
+    return None if spec["ctx"] == "absent" else Batch.List(ctxs)
+
 def _drive(spec, seed, rowwise=False):
     """the evaluator's protocol: predict, look the reward up, learn with what predict returned.
     returns (learner, [per-call record])"""
@@ -421,14 +435,14 @@ def _drive(spec, seed, rowwise=False):
         if batched:
             rec = {"rows": rows, "offered": offered, "ctxs": ctxs, "rwds": rwds, "n_learned0": len(lrn.learned), "n_rowcalls0": len(lrn.row_calls)}
             try:
-                rec["out"] = sl.predict(Batch.List(ctxs), Batch.List(offered))
+                rec["out"] = sl.predict(_ctx_arg(spec, ctxs), Batch.List(offered))
             except HarnessError: raise
             except Exception as e:
                 rec["exc"] = ("predict", e); recs.append(rec); break
             recs.append(rec)
             try:
                 A, P, K = rec["out"]
-                sl.learn(Batch.List(ctxs), A, Batch.List(rwds), P, **K)
+                sl.learn(_ctx_arg(spec, ctxs), A, Batch.List(rwds), P, **K)
             except HarnessError: raise
             except Exception as e:
                 rec["exc"] = ("learn", e); break
@@ -480,6 +494,10 @@ def _evaluate(spec, note, freq=None):
             edge_row = [r for rows in spec["calls"] for r in rows][spec["edge_k"] - 1]["rid"]
         else:
             note("edge.draw.unconfirmed")       # the generator is not the documented LCG: nothing is claimed about this seed
+    if spec["ctx"] == "absent" and batched:
+        note("oracle.no-context.batched")
+        if bat == "fallback": note("oracle.no-context.fallback")
+        elif spec["n"] == spec["b"]: note("oracle.no-context.square")       # square answers: the layout is probed with the first row alone
     lrn, recs = _drive(spec, spec["seed"])
     per_row = []                     # (rid, action, prob, kwargs) as the evaluator received them
     for ci, rec in enumerate(recs):
@@ -678,6 +696,7 @@ def _evaluate_e2e(spec, note):
         for r in rows:
             acts = make_actions(spec["kind"], r["n"], r["v"], spec["klen"])
             group.append({"context": make_context(spec["ctx"], r["rid"]), "actions": acts, "rewards": _Reward(r["rid"], acts)})
+            if spec["ctx"] == "absent": del group[-1]["context"]
             script.append((r, acts))
         inter.extend(Batch(len(rows)).filter(group) if batched else group)
     sub = dict(spec); sub["calls"] = calls
@@ -707,6 +726,7 @@ def _evaluate_e2e(spec, note):
                      f"SequentialCB(seed={spec['seed']}) recorded {[g.get('action') for g in got]!r} and then {[g.get('action') for g in again]!r}")]
     for i, (g, (r, acts)) in enumerate(zip(got, script)):
         note("e2e.rows")
+        if spec["ctx"] == "absent" and batched: note("e2e.rows.no-context-key.batched")
         j = _index_of(g.get("action"), acts)
         if j is None:
             return [("e2e:action-not-offered", f"row {i}: recorded action {g.get('action')!r}, offered {acts!r}")]
@@ -724,7 +744,7 @@ def _evaluate_e2e(spec, note):
     want_kw = [(s[0]["kw"] or {}) for s in script]
     got_kw = []
     for (bt, c, a, w, p, kw) in lrn.learned:
-        if bt: got_kw.extend({k: kw[k][i] for k in kw} for i in range(len(c)))
+        if bt: got_kw.extend({k: kw[k][i] for k in kw} for i in range(len(w)))
         else:  got_kw.append(kw)
     if canon(got_kw) != canon(want_kw):
         return [("e2e:learn-kwargs-changed", f"predict returned kwargs {want_kw!r}, learn received {got_kw!r}")]
@@ -756,6 +776,14 @@ def signature(spec, mode, e2e=False):
             t = dict(trial); t["fill"] = trial["fill"] + df
             if still(t): return t
         return None
+    if cur.get("ctx") == "absent" and cur["batching"] != "not":
+        # one mechanism whatever the format / action kind / sizes: the context of a batched call is not a batch.  It is named
+        # as such when the very same case holds with the same Nones handed over as a batch of contexts
+        trial = dict(cur); trial["ctx"] = "none"
+        try: holds = not _first(gen_case(trial), e2e)
+        except Exception: holds = False
+        if holds:
+            return f"{cur['batching']}/context=absent-beside-batched-actions/mode={mode}"
     for _pass in range(3):          # a feature can become replaceable once a later one has been (one action -> three actions)
         before = dict(cur)
         for key, neutral in NEUTRAL:
